@@ -532,6 +532,15 @@ func C13(x *Ctx) []Violation {
 					}
 				}
 			}
+			// identifiers the method itself must resolve: a parameter spelled like one of them collides with it
+			// (type names written unqualified in the destination package, type parameters, the body's identifiers)
+			typeNames := map[string]bool{"mock": true, "callInfo": true, "nil": true, "append": true, "panic": true}
+			destPath, _ := tc.DestPath(x.Case)
+			unqualifiedNames(sig.Params(), destPath, typeNames, map[types.Type]bool{})
+			unqualifiedNames(sig.Results(), destPath, typeNames, map[types.Type]bool{})
+			for j := 0; j < tpLen(p.KTP); j++ {
+				typeNames[p.KTP.At(j).Obj().Name()] = true
+			}
 			where := fmt.Sprintf("%s.%s", p.Iface, m.Name())
 			for j := range preds {
 				pr := preds[j]
@@ -553,7 +562,7 @@ func C13(x *Ctx) []Violation {
 				// collision-free context?
 				collision := openResult
 				for _, a := range pr.alts {
-					if stems[a] > 1 || quals[a] || reservedGenerated[a] || gen.IsKeyword(a) {
+					if stems[a] > 1 || quals[a] || reservedGenerated[a] || gen.IsKeyword(a) || typeNames[a] {
 						collision = true
 					}
 				}
@@ -615,4 +624,62 @@ func funcFieldParamNames(f *ast.File, mock, method string) []string {
 	return nil
 }
 
-var _ = tc.Fset
+// unqualifiedNames collects the names of the types mentioned by t that are written without a package qualifier
+// in the destination package (predeclared types, type parameters, types of the destination package itself).
+func unqualifiedNames(t types.Type, destPath string, names map[string]bool, seen map[types.Type]bool) {
+	if t == nil || seen[t] {
+		return
+	}
+	seen[t] = true
+	obj := func(o *types.TypeName, ta *types.TypeList) {
+		if o.Pkg() == nil || o.Pkg().Path() == destPath {
+			names[o.Name()] = true
+		}
+		for i := 0; i < ta.Len(); i++ {
+			unqualifiedNames(ta.At(i), destPath, names, seen)
+		}
+	}
+	switch t := t.(type) {
+	case *types.Basic:
+		names[t.Name()] = true
+	case *types.TypeParam:
+		names[t.Obj().Name()] = true
+	case *types.Named:
+		obj(t.Obj(), t.TypeArgs())
+	case *types.Alias:
+		obj(t.Obj(), t.TypeArgs())
+	case *types.Pointer:
+		unqualifiedNames(t.Elem(), destPath, names, seen)
+	case *types.Slice:
+		unqualifiedNames(t.Elem(), destPath, names, seen)
+	case *types.Array:
+		unqualifiedNames(t.Elem(), destPath, names, seen)
+	case *types.Chan:
+		unqualifiedNames(t.Elem(), destPath, names, seen)
+	case *types.Map:
+		unqualifiedNames(t.Key(), destPath, names, seen)
+		unqualifiedNames(t.Elem(), destPath, names, seen)
+	case *types.Tuple:
+		for i := 0; i < t.Len(); i++ {
+			unqualifiedNames(t.At(i).Type(), destPath, names, seen)
+		}
+	case *types.Signature:
+		unqualifiedNames(t.Params(), destPath, names, seen)
+		unqualifiedNames(t.Results(), destPath, names, seen)
+	case *types.Struct:
+		for i := 0; i < t.NumFields(); i++ {
+			unqualifiedNames(t.Field(i).Type(), destPath, names, seen)
+		}
+	case *types.Interface:
+		for i := 0; i < t.NumExplicitMethods(); i++ {
+			unqualifiedNames(t.ExplicitMethod(i).Type(), destPath, names, seen)
+		}
+		for i := 0; i < t.NumEmbeddeds(); i++ {
+			unqualifiedNames(t.EmbeddedType(i), destPath, names, seen)
+		}
+	case *types.Union:
+		for i := 0; i < t.Len(); i++ {
+			unqualifiedNames(t.Term(i).Type(), destPath, names, seen)
+		}
+	}
+}
